@@ -888,7 +888,7 @@ def characters(
     if ascii_letters:
         string += string_module.ascii_letters
     if letters:
-        string += string_module.letters
+        string += string_module.ascii_letters
     if octdigits:
         string += string_module.octdigits
     if punctuation:
@@ -896,9 +896,9 @@ def characters(
     if printable:
         string += string_module.printable
     if lowercase:
-        string += string_module.lowercase
+        string += string_module.ascii_lowercase
     if uppercase:
-        string += string_module.uppercase
+        string += string_module.ascii_uppercase
     if whitespace:
         string += string_module.whitespace
     return tuple(set(string))
